@@ -38,17 +38,20 @@ CONSTANTS Queues,          \* set of queue ids 0..n-1
           OpenSizesLast,   \* TRUE: the repaired code (fix D3)
           PayLens,         \* payload lengths offered to appends
           BatchSizes,      \* batch sizes offered to appends
-          AllowExplicit    \* explicit positions offered
+          AllowExplicit,   \* explicit positions offered
+          MaxDamage,       \* frames that may be damaged at rest (after a clean close)
+          DamageKinds,     \* subset of {"crc", "type", "zero"}
+          CrcQuarantinesBlock  \* FALSE: the code (a CRC failure drops the frame only); TRUE: self-test of the C09 predicate
 
 VARIABLES mem, tracked, wfile, woff, items, entries, exists, sized, dirDurable,
           buffered, osCnt, lastOs, todo, mode,
           done, inflight, pendP, pendW, assigned, batches, wsum, wstart,
-          nops, post, ncrash, verdict, clean, lastRet, lastLoss, cfile
+          nops, post, ncrash, verdict, clean, lastRet, lastLoss, cfile, ndamage, damaged, hits, dkinds
 
 vars == <<mem, tracked, wfile, woff, items, entries, exists, sized, dirDurable,
           buffered, osCnt, lastOs, todo, mode,
           done, inflight, pendP, pendW, assigned, batches, wsum, wstart,
-          nops, post, ncrash, verdict, clean, lastRet, lastLoss, cfile>>
+          nops, post, ncrash, verdict, clean, lastRet, lastLoss, cfile, ndamage, damaged, hits, dkinds>>
 
 -----------------------------------------------------------------------------
 (* Items *)
@@ -191,9 +194,10 @@ RLoop(vis, files, szd, fi, blk, cur, st, m) ==
                       c2 == c + it.n
                       \* the entry's file is the reader's file BEFORE it reads the entry
                       noRec == [within |-> FALSE, corrupt |-> FALSE, efile |-> f2]
-                  IN IF it.vis < HeaderLen THEN
+                  IN IF it.dmg = "zero" THEN [m |-> m, file |-> f2, off |-> b * BlockSize + c]   \* zeroed header: not available
+                     ELSE IF it.vis < HeaderLen \/ it.dmg = "type" \/ (CrcQuarantinesBlock /\ it.dmg = "crc") THEN
                         RLoop(vis, files, szd, fi2, b, c, [noRec EXCEPT !.corrupt = TRUE], m)
-                     ELSE IF it.vis < it.n THEN
+                     ELSE IF it.vis < it.n \/ it.dmg = "crc" THEN
                         RLoop(vis, files, szd, fi2, b, c2, noRec, m)
                      ELSE LET isFirst == IsFirstType(it.t)
                               isLast == IsLastType(it.t)
@@ -232,6 +236,7 @@ Init ==
   /\ assigned = [q \in Queues |-> -1] /\ batches = <<>> /\ wsum = 0 /\ wstart = 0
   /\ nops = 0 /\ post = 0 /\ ncrash = 0 /\ verdict = "ok" /\ clean = FALSE /\ lastRet = NoCall
   /\ lastLoss = "none" /\ cfile = 0
+  /\ ndamage = 0 /\ damaged = FALSE /\ hits = {} /\ dkinds = {}
 
 (* The calls offered in a state (only calls that really execute: rejected  *)
 (* and no-op calls are UNCHANGED by construction, see CallNoop)            *)
@@ -255,7 +260,7 @@ CallBegin ==
   /\ nops' = nops + 1 /\ post' = IF post > 0 THEN post + 1 ELSE 0
   /\ lastOs' = 0 /\ wstart' = wsum /\ cfile' = wfile
   /\ UNCHANGED <<mem, tracked, wfile, woff, items, entries, exists, sized, dirDurable, buffered, osCnt, mode,
-                 done, pendP, pendW, assigned, batches, wsum, ncrash, verdict, clean, lastRet, lastLoss>>
+                 done, pendP, pendW, assigned, batches, wsum, ncrash, verdict, clean, lastRet, lastLoss, ndamage, damaged, hits, dkinds>>
 
 -----------------------------------------------------------------------------
 (* Steps: one disjunct per effect kind *)
@@ -268,7 +273,7 @@ StepEntry ==
   /\ entries' = Append(entries, Ef[2])
   /\ lastOs' = 0
   /\ UNCHANGED <<mem, tracked, wfile, woff, items, exists, sized, dirDurable, buffered, osCnt, mode, done, inflight,
-                 pendP, pendW, assigned, batches, wsum, wstart, nops, post, ncrash, verdict, clean, lastRet, lastLoss, cfile>>
+                 pendP, pendW, assigned, batches, wsum, wstart, nops, post, ncrash, verdict, clean, lastRet, lastLoss, cfile, ndamage, damaged, hits, dkinds>>
 
 (* BufWriter of capacity BlockSize: a write that does not fit the spare    *)
 (* capacity first flushes; a write of at least the capacity bypasses it.   *)
@@ -289,7 +294,7 @@ StepWrite ==
          tot == Total - removedOs
          os0 == osCnt - removedOs
          it == [file |-> EFile(x), off |-> EOff(x), n |-> sz, t |-> EType(x), entry |-> Len(entries),
-                vis |-> sz, sy |-> FALSE, gone |-> FALSE]
+                vis |-> sz, sy |-> FALSE, gone |-> FALSE, dmg |-> "none"]
      IN /\ items' = Append(base, it)
         /\ osCnt' = IF direct THEN tot + sz ELSE IF flushFirst THEN tot ELSE os0
         /\ buffered' = IF direct THEN 0 ELSE b1 + sz
@@ -297,13 +302,13 @@ StepWrite ==
         /\ wsum' = wsum + sz
         /\ lastOs' = osCnt' - os0
   /\ UNCHANGED <<mem, tracked, entries, exists, sized, dirDurable, mode, done, inflight, pendP, pendW, assigned,
-                 batches, wstart, nops, post, ncrash, verdict, clean, lastRet, lastLoss, cfile>>
+                 batches, wstart, nops, post, ncrash, verdict, clean, lastRet, lastLoss, cfile, ndamage, damaged, hits, dkinds>>
 
 StepFlush ==
   /\ StepGuard("FL") /\ Pop
   /\ osCnt' = Total /\ buffered' = 0 /\ lastOs' = Total - osCnt
   /\ UNCHANGED <<mem, tracked, wfile, woff, items, entries, exists, sized, dirDurable, mode, done, inflight,
-                 pendP, pendW, assigned, batches, wsum, wstart, nops, post, ncrash, verdict, clean, lastRet, lastLoss, cfile>>
+                 pendP, pendW, assigned, batches, wsum, wstart, nops, post, ncrash, verdict, clean, lastRet, lastLoss, cfile, ndamage, damaged, hits, dkinds>>
 
 (* fdatasync(f): everything of file f that is at the OS becomes durable    *)
 StepFsync ==
@@ -311,7 +316,7 @@ StepFsync ==
   /\ items' = [i \in 1..Len(items) |-> IF items[i].file = EFile(Ef) /\ ~items[i].gone THEN [items[i] EXCEPT !.sy = TRUE] ELSE items[i]]
   /\ lastOs' = 0
   /\ UNCHANGED <<mem, tracked, wfile, woff, entries, exists, sized, dirDurable, buffered, osCnt, mode, done, inflight,
-                 pendP, pendW, assigned, batches, wsum, wstart, nops, post, ncrash, verdict, clean, lastRet, lastLoss, cfile>>
+                 pendP, pendW, assigned, batches, wsum, wstart, nops, post, ncrash, verdict, clean, lastRet, lastLoss, cfile, ndamage, damaged, hits, dkinds>>
 
 (* directory fsync: creations and unlinks so far become durable            *)
 StepDirSync ==
@@ -320,28 +325,28 @@ StepDirSync ==
   /\ items' = SelectSeq(items, LAMBDA it : ~it.gone)
   /\ lastOs' = 0
   /\ UNCHANGED <<mem, tracked, wfile, woff, entries, exists, sized, buffered, osCnt, mode, done, inflight,
-                 pendP, pendW, assigned, batches, wsum, wstart, nops, post, ncrash, verdict, clean, lastRet, lastLoss, cfile>>
+                 pendP, pendW, assigned, batches, wsum, wstart, nops, post, ncrash, verdict, clean, lastRet, lastLoss, cfile, ndamage, damaged, hits, dkinds>>
 
 StepOpenNext ==
   /\ StepGuard("OP") /\ Pop
   /\ tracked' = tracked \cup {EFile(Ef)}
   /\ lastOs' = 0
   /\ UNCHANGED <<mem, wfile, woff, items, entries, exists, sized, dirDurable, buffered, osCnt, mode, done, inflight,
-                 pendP, pendW, assigned, batches, wsum, wstart, nops, post, ncrash, verdict, clean, lastRet, lastLoss, cfile>>
+                 pendP, pendW, assigned, batches, wsum, wstart, nops, post, ncrash, verdict, clean, lastRet, lastLoss, cfile, ndamage, damaged, hits, dkinds>>
 
 StepCreate ==
   /\ StepGuard("CR") /\ Pop
   /\ tracked' = tracked \cup {EFile(Ef)} /\ exists' = exists \cup {EFile(Ef)}
   /\ lastOs' = 0
   /\ UNCHANGED <<mem, wfile, woff, items, entries, sized, dirDurable, buffered, osCnt, mode, done, inflight,
-                 pendP, pendW, assigned, batches, wsum, wstart, nops, post, ncrash, verdict, clean, lastRet, lastLoss, cfile>>
+                 pendP, pendW, assigned, batches, wsum, wstart, nops, post, ncrash, verdict, clean, lastRet, lastLoss, cfile, ndamage, damaged, hits, dkinds>>
 
 StepSetLen ==
   /\ StepGuard("SL") /\ Pop
   /\ sized' = sized \cup {EFile(Ef)}
   /\ lastOs' = 0
   /\ UNCHANGED <<mem, tracked, wfile, woff, items, entries, exists, dirDurable, buffered, osCnt, mode, done, inflight,
-                 pendP, pendW, assigned, batches, wsum, wstart, nops, post, ncrash, verdict, clean, lastRet, lastLoss, cfile>>
+                 pendP, pendW, assigned, batches, wsum, wstart, nops, post, ncrash, verdict, clean, lastRet, lastLoss, cfile, ndamage, damaged, hits, dkinds>>
 
 (* unlink: the file disappears from the directory; its content stays       *)
 (* recoverable (power loss) until the next directory fsync                 *)
@@ -356,14 +361,14 @@ StepUnlink ==
         /\ osCnt' = osCnt - goneOs
   /\ lastOs' = 0
   /\ UNCHANGED <<mem, wfile, woff, entries, dirDurable, buffered, mode, done, inflight,
-                 pendP, pendW, assigned, batches, wsum, wstart, nops, post, ncrash, verdict, clean, lastRet, lastLoss, cfile>>
+                 pendP, pendW, assigned, batches, wsum, wstart, nops, post, ncrash, verdict, clean, lastRet, lastLoss, cfile, ndamage, damaged, hits, dkinds>>
 
 StepMem ==
   /\ StepGuard("MEM") /\ Pop
   /\ mem' = Ef[2]
   /\ lastOs' = 0
   /\ UNCHANGED <<tracked, wfile, woff, items, entries, exists, sized, dirDurable, buffered, osCnt, mode, done, inflight,
-                 pendP, pendW, assigned, batches, wsum, wstart, nops, post, ncrash, verdict, clean, lastRet, lastLoss, cfile>>
+                 pendP, pendW, assigned, batches, wsum, wstart, nops, post, ncrash, verdict, clean, lastRet, lastLoss, cfile, ndamage, damaged, hits, dkinds>>
 
 StepPromise ==
   /\ StepGuard("PROMISE") /\ Pop
@@ -372,7 +377,7 @@ StepPromise ==
        /\ pendW' = IF "power" \in Ef[2] THEN << st >> ELSE pendW
   /\ lastOs' = 0
   /\ UNCHANGED <<mem, tracked, wfile, woff, items, entries, exists, sized, dirDurable, buffered, osCnt, mode, done,
-                 inflight, assigned, batches, wsum, wstart, nops, post, ncrash, verdict, clean, lastRet, lastLoss, cfile>>
+                 inflight, assigned, batches, wsum, wstart, nops, post, ncrash, verdict, clean, lastRet, lastLoss, cfile, ndamage, damaged, hits, dkinds>>
 
 AddPend(pend, st) == IF pend[Len(pend)] = st THEN pend ELSE Append(pend, st)
 
@@ -390,7 +395,7 @@ StepReturn ==
   /\ lastRet' = inflight /\ inflight' = NoCall
   /\ lastOs' = 0
   /\ UNCHANGED <<mem, tracked, wfile, woff, items, entries, exists, sized, dirDurable, buffered, osCnt, mode,
-                 wsum, wstart, nops, post, ncrash, verdict, clean, lastLoss, cfile>>
+                 wsum, wstart, nops, post, ncrash, verdict, clean, lastLoss, cfile, ndamage, damaged, hits, dkinds>>
 
 Step == StepEntry \/ StepWrite \/ StepFlush \/ StepFsync \/ StepDirSync \/ StepOpenNext \/ StepCreate
         \/ StepSetLen \/ StepUnlink \/ StepMem \/ StepPromise \/ StepReturn
@@ -414,7 +419,7 @@ CrashCommon ==
   /\ mode' = "Closed" /\ todo' = <<>> /\ buffered' = 0 /\ mem' = EmptyMem
   /\ post' = 1 /\ lastOs' = 0 /\ clean' = FALSE /\ ncrash' = ncrash + 1
   /\ UNCHANGED <<tracked, wfile, woff, entries, done, inflight, pendP, pendW, assigned, batches, wsum, wstart,
-                 nops, verdict, lastRet, cfile>>
+                 nops, verdict, lastRet, cfile, ndamage, damaged, hits, dkinds>>
 
 CrashProcess ==
   /\ "process" \in LossModels
@@ -452,15 +457,49 @@ Restart ==
   /\ osCnt' = Total /\ buffered' = 0
   /\ mode' = "Closed" /\ mem' = EmptyMem /\ post' = post + 1 /\ lastOs' = 0 /\ clean' = TRUE
   /\ UNCHANGED <<tracked, wfile, woff, items, entries, exists, sized, dirDurable, todo, done, inflight, pendP, pendW,
-                 assigned, batches, wsum, wstart, nops, ncrash, verdict, lastRet, lastLoss, cfile>>
+                 assigned, batches, wsum, wstart, nops, ncrash, verdict, lastRet, lastLoss, cfile, ndamage, damaged, hits, dkinds>>
 
 -----------------------------------------------------------------------------
 (* What a recovery may legitimately produce: see okState *)
+
+(* Damage at rest (C08 / C09 / C12 at the design level): after a clean close, a frame's payload or    *)
+(* checksum is altered ("crc": the frame alone is dropped), its type byte is made invalid ("type":   *)
+(* the rest of its block is quarantined) or its header is zeroed ("zero": replay stops there).       *)
+(* A damaged length field is not modelled (where the reader resynchronises depends on payload bytes; *)
+(* that is the known finding D4 and is decided on the real code).                                    *)
+Damage ==
+  /\ mode = "Closed" /\ clean /\ ndamage < MaxDamage
+  /\ \E i \in 1..Len(items), kind \in DamageKinds :
+       /\ items[i].t # 0 /\ ~items[i].gone /\ items[i].vis = items[i].n /\ items[i].dmg = "none"
+       /\ items[i].file \in exists
+       /\ items' = [items EXCEPT ![i].dmg = kind]
+       /\ hits' = hits \cup {items[i].entry}
+       /\ dkinds' = dkinds \cup {kind}
+  /\ ndamage' = ndamage + 1 /\ damaged' = TRUE
+  \* no further calls after header damage: the writer may resume in front of stale frames
+  /\ post' = IF dkinds' = {"crc"} THEN post ELSE MaxPost + 1
+  /\ UNCHANGED <<mem, tracked, wfile, woff, entries, exists, sized, dirDurable, buffered, osCnt, lastOs, todo, mode,
+                 done, inflight, pendP, pendW, assigned, batches, wsum, wstart, nops, ncrash, verdict, clean, lastRet,
+                 lastLoss, cfile>>
+
+GenuineRec(q, rec) == \E i \in 1..Len(batches) : batches[i].q = q /\ \E j \in 1..Len(batches[i].recs) : batches[i].recs[j] = rec
+CoveredByHit(q, rec) ==
+  \E e \in hits : entries[e].k = "append" /\ entries[e].q = q /\ entries[e].p <= rec[1] /\ rec[1] < entries[e].p + Len(entries[e].batch)
+DamageOk(x) ==
+  \* C08: only genuine records
+  /\ \A q \in Queues : x[q].a => \A j \in 1..Len(x[q].recs) : GenuineRec(q, x[q].recs[j])
+  \* C09: payload/CRC damage of one frame costs at most the entry it belongs to
+  /\ (ndamage = 1 /\ dkinds = {"crc"}) =>
+        \A q \in Queues : done[q].a =>
+          \A j \in 1..Len(done[q].recs) :
+             CoveredByHit(q, done[q].recs[j]) \/ (x[q].a /\ \E k \in 1..Len(x[q].recs) : x[q].recs[k] = done[q].recs[j])
+
 Open ==
   /\ mode = "Closed"
   /\ LET r == Recover(items, exists, sized) IN
        IF ~r.ok THEN
-          /\ verdict' = "openfail"
+          \* after damage open may report Corruption, except after payload/CRC damage of a single frame (C09)
+          /\ verdict' = IF damaged /\ ~(ndamage = 1 /\ dkinds = {"crc"}) THEN verdict ELSE "openfail"
           /\ UNCHANGED <<mem, tracked, wfile, woff, exists, sized, todo, mode, done, pendP, pendW, inflight, assigned, items>>
        ELSE
           LET x == AbsOf(r.m)
@@ -469,7 +508,8 @@ Open ==
                               \/ (lastLoss = "process" /\ \E i \in 1..Len(pendP) : x = pendP[i])
                               \/ (lastLoss = "power" /\ \E i \in 1..Len(pendW) : x = pendW[i])
               g == GcPlan(r.m, r.files, r.file, r.off, SortedSeq(EmptyQs(r.m)))
-          IN /\ verdict' = IF okState THEN verdict ELSE "notallowed"
+              dmgOk == DamageOk(x)
+          IN /\ verdict' = IF damaged THEN (IF dmgOk THEN verdict ELSE "damage") ELSE IF okState THEN verdict ELSE "notallowed"
              /\ mem' = r.m /\ tracked' = r.files /\ wfile' = r.file /\ woff' = r.off
              /\ exists' = r.files /\ sized' = r.szd
              \* what the OS holds now is x; what is DURABLE is x only after a power loss (a clean
@@ -488,9 +528,10 @@ Open ==
              \* torn items stay as they are (garbage behind or under the cursor)
              /\ items' = items
   /\ lastOs' = 0
-  /\ UNCHANGED <<entries, dirDurable, buffered, osCnt, batches, wsum, wstart, nops, post, ncrash, clean, lastRet, lastLoss, cfile>>
+  /\ damaged' = FALSE
+  /\ UNCHANGED <<entries, dirDurable, buffered, osCnt, batches, wsum, wstart, nops, post, ncrash, clean, lastRet, lastLoss, cfile, ndamage, hits, dkinds>>
 
-Next == CallBegin \/ Step \/ CrashProcess \/ CrashPower \/ Restart \/ Open
+Next == CallBegin \/ Step \/ CrashProcess \/ CrashPower \/ Restart \/ Open \/ Damage
 
 Spec == Init /\ [][Next]_vars
 
